@@ -10,6 +10,29 @@ TECH = ("contract-based deductive verification: weakest-precondition style VCs g
         "against //@ contracts, discharged by z3/cvc5")
 
 CLAIMS = {
+    "C01": (
+        "The writer/reader pairs of the scalar encodings are proved inverse at specification level, for all inputs: every encoder of bits.go writes "
+        "exactly the bytes of its byte specification and the round-trip lemmas show that the readers' value specifications (big-endian fold, "
+        "VarUInt and VarInt value/stop/sign) applied to those bytes give back the value, for every 64-bit value; binaryWriter.WriteInt/WriteUint "
+        "emit sign nibble, length and that magnitude; WriteFloat keeps bits, NaN and negative zero and uses four bytes only when lossless; the "
+        "declared length of a binary timestamp equals the bytes appended; container length prefixes equal the tag written. Text: every byte of "
+        "a string or quoted symbol is written exactly once and in order, raw only when printable and not the delimiter or backslash, otherwise as "
+        "the escape that the tokenizer's escape decoding (proved against the Ion escape table) reads back to the same byte (lemmas); a clob "
+        "escape denotes exactly one byte.",
+        "A partial decision: the composition into whole values and streams is not machine-checked (buffer tree and annotation wrappers, "
+        "symbol-table emission at Finish, text number/decimal/timestamp formatting through fmt/strconv, validateAnnotatedValue, the text "
+        "tokenizer beyond characters and escapes). Known defects outside the decided part are listed in DESIGN.md section 0.3.",
+        "DESIGN.md section 7 C01"),
+    "C02": (
+        "Character-level decoding of the text reader under contract, over a ghost model of the input stream: tokenizer.read normalises CR and CR LF "
+        "to LF, honours the push-back buffer, and never turns a failing read into a clean end; unread/peek restore exactly; fromHex, "
+        "readHexEscapeSeq (loop invariant: the value of the digits consumed so far) and readEscapedChar decode every escape of the Ion text "
+        "grammar to exactly its character, reject \\u and \\U in clobs, and reject anything else; the text reader's state machine rejects dangling "
+        "annotations and misplaced closers (C07 contracts shared).",
+        "A partial decision: number, timestamp, symbol, blob and long-string scanning (ReadNumber, readRadix, ReadBlob, readLongString, "
+        "scanForNumericType), whitespace and comment skipping, and the conversion of token text to values (strconv, ParseDecimal, ParseTimestamp) "
+        "are not under contract; the tokenizer's Next/ReadValue are thin assumed contracts for the text reader's state machine.",
+        "DESIGN.md section 7 C02"),
     "C03": (
         "The binary decoding path is under contract function by function: parseTag; bitstream.Next against the Ion binary type-descriptor table "
         "(all 256 descriptor octets, inline and VarUInt lengths, sorted structs, typed nulls, booleans, NOP pads, version markers only at top level); "
@@ -105,6 +128,7 @@ CLAIMS = {
         "returns it and leaves it in place, and a call other than Finish that returns an error has recorded it in w.err - so checking the final "
         "Finish is enough. binaryWriter.beginValue/writeValue refuse a value inside a struct without a field name; container.Len equals the "
         "bytes EmitTo writes for the tag; the text writer's Finish keeps a pending separator unless it wrote the newline that replaces it.",
+        "Also: no error returned by any callee inside package ion is dropped (one errprop obligation per call site, decided on go/ssa). "
         "Not decided: that the emitted values are exactly those of the calls that succeeded (protocol-level), determinism, re-arming after Finish "
         "in the binary writer, and no-panic for invalid Type arguments. The writers' internal helpers are called by contract with `modifies *`.",
         "DESIGN.md section 7 C12"),
@@ -174,8 +198,22 @@ CLAIMS = {
         "The binary reader touches its input only through the ghost-stream model of bufio.Reader (ReadByte/Peek/Discard) and io.ReadFull/io.CopyN, "
         "which has no notion of chunks; read, read1, skip, readN, peekAtOffset and every function built on them are proved to return a non-nil "
         "error when the underlying reader fails with anything but a clean end, and to treat a short read as an error.",
-        "Reader side, binary only. Chunking itself lives inside bufio (trusted model). Writer failures are not under contract yet.",
+        "Binary reader and the text tokenizer's read/peek. Every error returned by a callee anywhere in package ion is used (errprop obligations, one "
+        "per call site, decided on go/ssa; explicit `_ =` discards and strings.Builder/bytes.Buffer writes are exempt and listed). Chunking "
+        "itself lives inside bufio (trusted model).",
         "DESIGN.md section 7 C19"),
+    "C20": (
+        "The copy loop of ion-go process (processor.process) under contract, with the Reader and the Writer seen through interface contracts: a "
+        "typed null is written as the typed null of its own type and nothing else is; every other value reaches the Writer method of its own Ion "
+        "type and only when it is not null; containers are entered only when they are not null; no accessor result is dereferenced when it can be "
+        "nil and neither of the two panics of the loop (bad int size, bad ion type) is reachable (safety obligations); every error handed to "
+        "processor.error is non-nil; the processor's writer and error report are not replaced during processing. The event writer's "
+        "BeginList/BeginSexp/BeginStruct raise the depth by exactly one on success and BeginStruct requires its struct-tracking map to exist.",
+        "Not decided: the command line and file handling (newProcessor, run, processFiles), that Finish is called exactly once per run, the "
+        "event writer's event contents (built through Marshal), the error report's contents, the subprocess-level behaviour (exit status, "
+        "output files). ErrorReport.Append is a thin assumed contract (it panics when the report itself cannot be written). Reader/Writer "
+        "implementations are assumed to meet their interface contracts; Reader and Writer are assumed to be distinct objects.",
+        "DESIGN.md section 7 C20"),
 }
 
 NA_DEFAULT = ("contracts for the functions this property depends on are not yet under the generator (see DESIGN.md section 11, build order); "
